@@ -316,19 +316,26 @@ func checkC01(r *Run) {
 	// ------------------------------------------------------------------ R2
 	r.Rule("C01-R2", "map iteration order cannot leak: every `range` over a map in a function reachable from consensus execution or restart is (P1) a pure copy/membership update, (P2) a collection that is sorted before use, (P3) deletes only, or a vetted per-entry effect on independent objects (one line of reason each). Store writes in map order are NOT accepted: the IAVL root hash depends on insertion order", 15)
 	vettedRanges := map[string]string{
-		"(store/cachemulti.Store).Write":             "calls Write on each substore's own cache wrapper: different substores are different trees; within one store cachekv.Write sorts its keys",
-		"store/rootmulti.commitStores":               "commits each substore (independent trees); the resulting infos are hashed through a name-keyed map (commitInfo.Hash -> SimpleHashFromMap)",
-		"(*store/rootmulti.Store).LoadVersion":       "loads each mounted substore from the DB (independent); results stored in a map",
-		"(*store/rootmulti.Store).SetPruning":        "sets the pruning option on each substore (independent, idempotent)",
-		"(x/gov/types.ACL).Validate":                 "builds the list of unowned parameters only for an error message",
-		"(types.KeyTable).maxKeyLength":              "computes a maximum (commutative)",
-		"(types.Subspace).WithKeyTable":              "copies the key table into the subspace's map (P1) — flagged only because of the panic guard",
-		"(x/gov/keeper.Keeper).GetAllParamNameValue": "builds a map (query path)",
-		"(*baseapp.BaseApp).MountKVStores":           "mounts each store (registration into maps, no state)",
-		"(*store/rootmulti.Store).nameToKey":         "returns the key whose Name() equals the argument; MountStoreWithDB rejects duplicate names, so at most one entry matches and the order cannot matter",
-		"(x/gov/keeper.Keeper).GetAllParamNames":     "reads every subspace's keys and fills a map (no writes)",
-		"store/cachemulti.NewFromKVStore":            "creates one cache wrapper per substore and stores it in a map (no store effects)",
-		"(*baseapp.BaseApp).MountTransientStores":    "mounts each store (registration into maps, no state)",
+		"(store/cachemulti.Store).Write":                      "calls Write on each substore's own cache wrapper: different substores are different trees; within one store cachekv.Write sorts its keys",
+		"store/rootmulti.commitStores":                        "commits each substore (independent trees); the resulting infos are hashed through a name-keyed map (commitInfo.Hash -> SimpleHashFromMap)",
+		"(*store/rootmulti.Store).LoadVersion":                "loads each mounted substore from the DB (independent); results stored in a map",
+		"(*store/rootmulti.Store).SetPruning":                 "sets the pruning option on each substore (independent, idempotent)",
+		"(x/gov/types.ACL).Validate":                          "builds the list of unowned parameters only for an error message",
+		"(types.KeyTable).maxKeyLength":                       "computes a maximum (commutative)",
+		"(types.Subspace).WithKeyTable":                       "copies the key table into the subspace's map (P1) — flagged only because of the panic guard",
+		"(x/gov/keeper.Keeper).GetAllParamNameValue":          "builds a map (query path)",
+		"(*baseapp.BaseApp).MountKVStores":                    "mounts each store (registration into maps, no state)",
+		"(*store/rootmulti.Store).nameToKey":                  "returns the key whose Name() equals the argument; MountStoreWithDB rejects duplicate names, so at most one entry matches and the order cannot matter",
+		"(x/gov/keeper.Keeper).GetAllParamNames":              "reads every subspace's keys and fills a map (no writes)",
+		"store/cachemulti.NewFromKVStore":                     "creates one cache wrapper per substore and stores it in a map (no store effects)",
+		"(*baseapp.BaseApp).MountTransientStores":             "mounts each store (registration into maps, no state)",
+		"(*store/rootmulti.Store).CacheMultiStoreWithVersion": "fills a fresh map with one immutable view per substore; on failure the first error met is returned (query path, no state)",
+		"(*types/module.Manager).RegisterInvariants":          "lets each module register its invariants into the registry (keyed by module and route; not consensus state)",
+		"(*types/module.Manager).RegisterRoutes":              "adds each module's handler and querier under the module's own route name (router tables are keyed by name)",
+		"(types/module.BasicManager).DefaultGenesis":          "fills a map keyed by module name",
+		"(types/module.BasicManager).RegisterCodec":           "registers each module's types with amino; prefixes derive from the registered names, not from registration order",
+		"(types/module.BasicManager).ValidateGenesis":         "validates each module's genesis; the first error met is returned (no state)",
+		"x/auth/keeper.NewKeeper":                             "fills the permission map keyed by module name",
 	}
 	nRanges := 0
 	for _, f := range fns {
@@ -358,6 +365,39 @@ func checkC01(r *Run) {
 		})
 	}
 	r.Stats["C01_map_ranges_reachable"] = nRanges
+	// the rest of the repo (constructors, application wiring, query paths): what they build is what consensus
+	// execution later walks (NewManager's default Order* slices, router tables), so order must not leak there either
+	nWiring := 0
+	for _, f := range P.RepoFns {
+		if _, ok := reached[f]; ok {
+			continue
+		}
+		f := f
+		Instrs(f, func(in ssa.Instruction) {
+			rng, ok := in.(*ssa.Range)
+			if !ok {
+				return
+			}
+			if _, isMap := rng.X.Type().Underlying().(*types.Map); !isMap {
+				return
+			}
+			nWiring++
+			info := P.classifyMapRange(f, rng)
+			name := short(enclosingTop(f).String())
+			key := "map-range@" + short(f.String()) + ":" + P.TermAt(rng.X, rng).String()
+			switch info.class {
+			case "P0", "P1", "P2", "P3":
+				r.OK("C01-R2", key, P.InstrPos(rng), info.class+": "+info.detail)
+			default:
+				if why, ok := vettedRanges[name]; ok {
+					r.OK("C01-R2", key, P.InstrPos(rng), "vetted per-entry effect: "+why+" [effects: "+info.detail+"]")
+				} else {
+					r.Viol("C01-R2", key, P.InstrPos(rng), short(f.String())+" (construction / wiring / query code) ranges over the map "+P.TermAt(rng.X, rng).String()+" and its body has order-dependent effects {"+info.detail+"}: Go randomises map iteration order, so what this function builds differs from process to process")
+				}
+			}
+		})
+	}
+	r.Stats["C01_map_ranges_elsewhere"] = nWiring
 
 	// ------------------------------------------------------------------ R3
 	r.Rule("C01-R3", "the app hash is order-independent at multistore level: commitInfo.Hash feeds merkle.SimpleHashFromMap with a map keyed by store name, and the CommitID hash returned by Commit/LoadVersion is that function's result", 3)
